@@ -10,6 +10,7 @@ import (
 	"os/exec"
 	"strings"
 	"sync"
+	"sync/atomic"
 	"time"
 
 	"github.com/flynn/noise"
@@ -63,6 +64,26 @@ type recCipher struct {
 	mu    sync.Mutex
 	log   []encRec
 	gate  chan arrival
+	// stress runs: a preallocated log filled through an atomic cursor, so that recording does not serialise the senders
+	buf []encRec
+	pos atomic.Int64
+}
+
+func (r *recCipher) record(e encRec) {
+	if r.buf != nil {
+		r.buf[r.pos.Add(1)-1] = e
+		return
+	}
+	r.mu.Lock()
+	r.log = append(r.log, e)
+	r.mu.Unlock()
+}
+
+func (r *recCipher) records() []encRec {
+	if r.buf != nil {
+		return r.buf[:r.pos.Load()]
+	}
+	return r.log
 }
 
 var errCipherPanicked = errors.New("cipher panicked")
@@ -75,16 +96,12 @@ func (r *recCipher) EncryptDanger(out, ad, plaintext []byte, n uint64, nb []byte
 	}
 	defer func() {
 		if p := recover(); p != nil {
-			r.mu.Lock()
-			r.log = append(r.log, encRec{n: n, panicked: true})
-			r.mu.Unlock()
+			r.record(encRec{n: n, panicked: true})
 			res, err = nil, errCipherPanicked
 		}
 	}()
 	res, err = r.inner.EncryptDanger(out, ad, plaintext, n, nb)
-	r.mu.Lock()
-	r.log = append(r.log, encRec{n: n, ok: err == nil})
-	r.mu.Unlock()
+	r.record(encRec{n: n, ok: err == nil})
 	return res, err
 }
 
@@ -131,14 +148,19 @@ type mop struct {
 }
 
 type mobs struct {
-	arrived bool
-	nonce   uint64
-	ok      bool
-	ctr     uint64
+	arrived  bool
+	nonce    uint64
+	ok       bool
+	ctr      uint64
+	ctrKnown bool
 }
 
 // runRandomScript interleaves generation and execution: after every R the harness sees whether the thread parked.
+// In lock mode a new path is normally started only while no thread is parked inside the critical section; with
+// probability `tryBlocked` it is started anyway: the real thread must then block on writeLock (nothing reaches the
+// cipher, the counter does not move) and goes on by itself when the lock is released.
 func runRandomScript(c *hx.Ctx, lk bool, kind int, start uint64, progs [][]int, eagerE float64) ([]mop, []mobs) {
+	const tryBlocked = 0.35
 	noiseutil.EncryptLockNeeded = lk
 	rec := &recCipher{inner: realCipher(kind, 0x40), gate: make(chan arrival)}
 	rig := nebula.VerifNewNonceRig(rec, start)
@@ -153,9 +175,30 @@ func runRandomScript(c *hx.Ctx, lk bool, kind int, start uint64, progs [][]int, 
 	}
 	var ops []mop
 	var obs []mobs
+	blocked := -1 // a thread launched while the lock was held
+	launch := func(k int) {
+		p := progs[k][next[k]]
+		next[k]++
+		go func() {
+			senders[k].Send(p)
+			done[k] <- struct{}{}
+		}()
+	}
+	await := func(k int, patience time.Duration) (settled bool) {
+		select {
+		case a := <-rec.gate:
+			pend[k] = &a
+			obs = append(obs, mobs{arrived: true, nonce: a.n, ctr: rig.Counter(), ctrKnown: true})
+		case <-done[k]:
+			obs = append(obs, mobs{ctr: rig.Counter(), ctrKnown: true})
+		case <-time.After(patience):
+			return false
+		}
+		return true
+	}
 	for {
 		nParked := 0
-		var canR, canE []int
+		var canR, canE, canB []int
 		for k := 0; k < T; k++ {
 			if pend[k] != nil {
 				nParked++
@@ -163,12 +206,36 @@ func runRandomScript(c *hx.Ctx, lk bool, kind int, start uint64, progs [][]int, 
 			}
 		}
 		for k := 0; k < T; k++ {
-			if pend[k] == nil && next[k] < len(progs[k]) && (!lk || nParked == 0) {
-				canR = append(canR, k)
+			if pend[k] == nil && k != blocked && next[k] < len(progs[k]) {
+				if !lk || nParked == 0 {
+					canR = append(canR, k)
+				} else if blocked < 0 {
+					canB = append(canB, k)
+				}
 			}
+		}
+		if blocked >= 0 && nParked == 0 {
+			// the lock holder has left: the blocked thread is running by itself; record where it gets to
+			k := blocked
+			blocked = -1
+			ops = append(ops, mop{opR, k})
+			if !await(k, 20*time.Second) {
+				panic("nonce harness: thread released from the lock neither reached the cipher nor returned")
+			}
+			continue
 		}
 		if len(canR) == 0 && len(canE) == 0 {
 			break
+		}
+		if len(canB) > 0 && c.Chance(tryBlocked) {
+			k := canB[c.Intn(len(canB))]
+			ops = append(ops, mop{opR, k})
+			launch(k)
+			if !await(k, 3*time.Millisecond) {
+				obs = append(obs, mobs{ctr: rig.Counter(), ctrKnown: true})
+				blocked = k
+			}
+			continue
 		}
 		doE := len(canR) == 0 || (len(canE) > 0 && c.Chance(eagerE))
 		if doE {
@@ -188,28 +255,26 @@ func runRandomScript(c *hx.Ctx, lk bool, kind int, start uint64, progs [][]int, 
 			}
 			e := rec.log[before]
 			rec.mu.Unlock()
-			obs = append(obs, mobs{ok: e.ok, ctr: rig.Counter()})
+			// with a thread waiting for the lock the counter may already have moved on
+			obs = append(obs, mobs{ok: e.ok, ctr: rig.Counter(), ctrKnown: blocked < 0})
 		} else {
 			k := canR[c.Intn(len(canR))]
 			ops = append(ops, mop{opR, k})
-			p := progs[k][next[k]]
-			next[k]++
-			go func() {
-				senders[k].Send(p)
-				done[k] <- struct{}{}
-			}()
-			select {
-			case a := <-rec.gate:
-				pend[k] = &a
-				obs = append(obs, mobs{arrived: true, nonce: a.n, ctr: rig.Counter()})
-			case <-done[k]:
-				obs = append(obs, mobs{ctr: rig.Counter()})
-			case <-time.After(20 * time.Second):
+			launch(k)
+			if !await(k, 20*time.Second) {
 				panic("nonce harness: scripted thread neither reached the cipher nor returned")
 			}
 		}
 	}
 	return ops, obs
+}
+
+// zoff renders v as a signed offset from base (a Z literal).
+func zoff(v, base uint64) string {
+	if v >= base {
+		return fmt.Sprintf("%d%%Z", v-base)
+	}
+	return fmt.Sprintf("(-%d)%%Z", base-v)
 }
 
 func scriptLit(lk bool, start uint64, progs [][]int, ops []mop, obs []mobs) (string, map[string]any, bool) {
@@ -232,10 +297,14 @@ func scriptLit(lk bool, start uint64, progs [][]int, ops []mop, obs []mobs) (str
 		}
 		arr := hx.None()
 		if o.arrived {
-			arr = hx.Some(hx.N(o.nonce))
+			arr = hx.Some(zoff(o.nonce, start))
 		}
-		ol[i] = hx.Tuple(hx.App(ctor, hx.N(uint64(op.tid))), hx.Tuple(arr, hx.Bool(o.ok), hx.N(o.ctr)))
-		jops[i] = []any{[]string{"R", "E"}[op.kind], op.tid, o.arrived, fmt.Sprint(o.nonce), o.ok, fmt.Sprint(o.ctr)}
+		ctr, jctr := hx.None(), "?"
+		if o.ctrKnown {
+			ctr, jctr = hx.Some(zoff(o.ctr, start)), fmt.Sprint(o.ctr)
+		}
+		ol[i] = hx.App("Nonce_corr.MS", hx.App(ctor, hx.N(uint64(op.tid))), arr, hx.Bool(o.ok), ctr)
+		jops[i] = []any{[]string{"R", "E"}[op.kind], op.tid, o.arrived, fmt.Sprint(o.nonce), o.ok, jctr}
 		anyOK = anyOK || o.ok
 	}
 	lit := hx.App("Nonce_corr.CScript", hx.Bool(lk), hx.N(start), hx.List(pl), hx.List(ol))
@@ -252,7 +321,7 @@ type stressOut struct {
 
 func runStress(lk bool, kind int, start uint64, threads, per int, mix []int) stressOut {
 	noiseutil.EncryptLockNeeded = lk
-	rec := &recCipher{inner: realCipher(kind, 0x70)}
+	rec := &recCipher{inner: realCipher(kind, 0x70), buf: make([]encRec, threads*per)}
 	rig := nebula.VerifNewNonceRig(rec, start)
 	var wg sync.WaitGroup
 	gate := make(chan struct{})
@@ -269,7 +338,7 @@ func runStress(lk bool, kind int, start uint64, threads, per int, mix []int) str
 	}
 	close(gate)
 	wg.Wait()
-	return stressOut{log: rec.log, final: rig.Counter()}
+	return stressOut{log: rec.records(), final: rig.Counter()}
 }
 
 // ---- the components -------------------------------------------------------------------------------
@@ -330,7 +399,7 @@ func orderChecked() bool {
 func nonceBody(c *hx.Ctx, fips bool) {
 	defer func(v bool) { noiseutil.EncryptLockNeeded = v }(noiseutil.EncryptLockNeeded)
 	lockDefault := noiseutil.EncryptLockNeeded
-	cw := c.NewCaseWriter("From NV Require Import corr.Nonce_corr.", "Nonce_corr.case", "Nonce_corr.check_case", 400)
+	cw := c.NewCaseWriter("From NV Require Import corr.Nonce_corr.", "Nonce_corr.case", "Nonce_corr.check_case", 120)
 	ceil := uint64(noiseutil.RejectAfterMessages)
 	max := ^uint64(0)
 	// lock modes and ciphers this process can honestly exercise
@@ -495,7 +564,7 @@ func nonceBody(c *hx.Ctx, fips bool) {
 		recs := make([]string, len(out.log))
 		npanic, nok := 0, 0
 		for j, e := range out.log {
-			recs[j] = hx.Tuple(hx.N(e.n), hx.Bool(e.ok))
+			recs[j] = hx.App("Nonce_corr.LR", zoff(e.n, start), hx.Bool(e.ok))
 			if e.panicked {
 				npanic++
 			}
@@ -503,13 +572,13 @@ func nonceBody(c *hx.Ctx, fips bool) {
 				nok++
 			}
 		}
-		cw.Add(hx.App("Nonce_corr.CStress", hx.Bool(lk), hx.N(start), hx.N(uint64(total)), hx.List(recs), hx.N(out.final), hx.N(uint64(npanic))),
+		cw.Add(hx.App("Nonce_corr.CStress", hx.Bool(lk), hx.N(start), hx.N(uint64(total)), hx.List(recs), zoff(out.final, start), hx.N(uint64(npanic))),
 			"stress", nok > 0, map[string]any{"op": "stress", "lock": lk, "cipher": kind, "start": fmt.Sprint(start), "goroutines": threads,
 				"sends_each": per, "mix": mixes[i%len(mixes)], "reached_cipher": len(out.log), "accepted": nok, "cipher_panics": npanic, "final": fmt.Sprint(out.final)})
 	}
 	// large runs are judged here in Go (a map / a running maximum) and only the tallies go to Coq
 	nBig := 4
-	bigThreads, bigPer := 16, 20000
+	bigThreads, bigPer := 16, 12000
 	if c.Tier == "thorough" {
 		nBig, bigPer = 12, 100000
 	}
